@@ -117,7 +117,10 @@ def run(chk):
                                 # missing product: only allowed where the path says it is the zero cube
                                 # a test on that product (== zero cube, is_zero, ...) appears on this path
                                 eqs = [c for c in o.pc if isinstance(c, W) and c.val is None and c.bits[0] is not None and c.bits[0][0] and any(nm in B.ATOMS.name(x) for x in c.bits[0][0] for nm in (wn, an))]
-                                if not eqs:
+                                # ... or one of its factors is the zero cube on this path (then the product is zero too)
+                                fx, fy = wn[1:-1].split("*")
+                                zero_factor = any(w_.get("is_zero(%s)" % z_) for z_ in (fx, fy)) if s_ == "sat" else False
+                                if not eqs and not zero_factor:
                                     v, d = REFUTED, "the product %s is not formed" % wn
                                     break
                             if v != PROVED:
